@@ -185,6 +185,7 @@ func main() {
 	r := ev.New("C07", "model_checking",
 		"breadth-first search over reference-model states (mode, buffer, history of pages, cursor) from 10 start commands (a paged collection opened as a listing, thread with ancestors and paged replies, actor with paged outbox, multi-author post with unfetchable parent, empty outbox, outbox whose second page is missing, feed of two actors, empty feed, failing URL, empty collection); "+
 			"alphabet: the keymap's keys, digits, Esc, Backspace, arbitrary bytes (NUL, LF, 0xC3) and macros (:open / :feed / unknown commands, a 20-digit number, 0 Enter, n .); a second search goes to depth 6 (quick) / 9 (thorough) over the page-opening and history keys {space,h,l,j,k,c,a} from the thread and actor starts; every transition replays the shortest key path on a fresh real ui.State (key + settle under the scheduler's default schedule) "+
+			"; a further start state, a viewer started with 1 Enter that is still open (real process, held), under 16 key sequences judged by the keymap (digits select, ':' commands, Esc cancels, other keys leave the notice)"+
 			"; end to end: 24 key sequences through the built program on a pseudo-terminal (main.go's key loop and frame writer included) compared screen by screen with ui.State driven directly "+
 			"and compares mode, buffer, history length/index and highlighted item; every frame is checked for height, terminal safety and colour leaks; distinct_nontrivial = distinct model states")
 	w := uimodel.Build()
@@ -199,6 +200,18 @@ func main() {
 			Case e2eKeys `json:"case"`
 		}
 		ev.LoadReplay(*ev.FlagReplay, &e2)
+		var vc struct {
+			Case viewerCase `json:"case"`
+		}
+		ev.LoadReplay(*ev.FlagReplay, &vc)
+		if vc.Case.Viewer {
+			viewerPart(r)
+			r.Eval(1)
+			r.Distinct("a")
+			r.Distinct("b")
+			r.States, r.Transitions = 1, 1
+			r.Finish()
+		}
 		if e2.Case.E2E {
 			e2ePart(r) // a couple of dozen sessions: run the part whole
 			r.Eval(1)
@@ -405,6 +418,7 @@ func main() {
 	}
 	r.Eval(r.Transitions)
 	r.Traces = r.Transitions
+	viewerPart(r)
 	e2ePart(r)
 	r.Extra["frames_checked"] = frames
 	r.Extra["depth"] = depth
